@@ -114,7 +114,10 @@ PROPS["C09"] = _pprop("ScpiVerif.Props.C09", [{"name": "p09", "cfgs": ["A"]}, {"
     "1..3 messages A (including failing ones, unfinished blocks, unterminated tails) then a message B; B on the used context is compared with B on a fresh context that was given the same registers and error queue")
 PROPS["C05"] = _pprop("ScpiVerif.Props.C05", [{"name": "p05", "cfgs": ["A"], "keep": "P,H,I,L,B,C,N,Y,X,A,E"}], ["C05."],
     "units pairing every typed reader (mandatory / optional, one to three readers, arrays, stop-on-failure) with parameter lists of 0..4 items of every data type, with white space around commas and malformed fragments")
-PROPS["C04"] = _pprop("ScpiVerif.Props.C04", [{"name": "p04", "cfgs": ["A"], "keep": "P,H,I,L,B,C,N"}, {"name": "p05", "cfgs": ["A"], "keep": "P,H,I,L,B,C,N"}], ["C04."],
+PROPS["C04"] = _pprop("ScpiVerif.Props.C04", [
+    # a valid numeric literal that its reader refuses does not 'decode to the value it denotes' either: on the numeric domain that clause of the parameter judge counts for C04
+    {"name": "p04", "cfgs": ["A"], "keep": "P,H,I,L,B,C,N", "clauses": ["C05.reader_rejected_valid_item"]},
+    {"name": "p05", "cfgs": ["A"], "keep": "P,H,I,L,B,C,N"}], ["C04."],
     "decimal literals of every shape (1..25 digits, sign, point, exponent, white space before the exponent and after its E), #H/#Q/#B literals up to the type width, integer width boundaries, through the six numeric readers and SCPI_ParamNumber; every row of the unit table in four casings and three separations; every special mnemonic in short and long form and three casings; judged bit-exactly against Spec/Float.lean (correctly rounded value of the literal) and the generated unit table",
     ["translate/extract.py — scpi_units_def with multipliers as exact rationals, scpi_special_numbers_def"])
 PROPS["C17"] = _pprop("ScpiVerif.Props.C17", [{"name": "p17", "cfgs": ["A"], "keep": "P,H,W,F,E",
